@@ -16,8 +16,10 @@ def ascii_hash(i):
 def udp_case(ctx, c, idx):
     backend, kind, fam, n = c["backend"], c["kind"], c["fam"], c["n"]
     port = free_port()
-    cfg = udp_config(port, backend, mode="off", max_scrape=min(n, 255) if kind == "scrape" else 70,
-                     max_resp=n if kind == "announce" else 30)
+    # the limit under test is n; every OTHER limit is set high and the request asks for as much as it can,
+    # so that a reply bounded by the wrong limit shows up as an overflow at a smaller n
+    cfg = udp_config(port, backend, mode="off", max_scrape=min(n, 255) if kind == "scrape" else 255,
+                     max_resp=n if kind == "announce" else 1000)
     t = Tracker(ctx, "udp", cfg, "c18_%d" % idx)
     ip = "127.0.0.2" if fam == 4 else "::1"
     srv = ("127.0.0.1", port) if fam == 4 else ("::1", port)
@@ -31,9 +33,10 @@ def udp_case(ctx, c, idx):
             raise ToolError("no connect reply")
         cid = decode_reply(r[0], fam)["conn_id"]
         if kind == "announce":
-            # n stored peers: one source address announcing n different ports
+            # n stored peers (the worst case: all of them are returned), or n + 40 in an "overfull" probe:
+            # one source address announcing different ports
             sent = 0
-            for p in range(n):
+            for p in range(n + (40 if c.get("overfull") else 0)):
                 cl.send(announce_req(cid, 10 + p, info_hash(1), peer_id(1), 1, "started", 1024 + p))
                 sent += 1
                 if sent % 64 == 0:
@@ -42,7 +45,8 @@ def udp_case(ctx, c, idx):
             time.sleep(0.3)
             while cl.recv(0.05):
                 pass
-            data = announce_req(cid, 777, info_hash(1), peer_id(2), 1, "started", 60000, numwant=n)
+            data = announce_req(cid, 777, info_hash(1), peer_id(2), 1, "started", 60000,
+                                numwant=2 ** 31 - 1 if c.get("overfull") else n)
         else:
             data = scrape_req(cid, 777, [info_hash(100 + i) for i in range(n)])
         cl.send(data)
@@ -56,7 +60,8 @@ def udp_case(ctx, c, idx):
                     obs, olen = "reply", len(r[0])
                     break
         return {"ev": "case", "tracker": "udp", "backend": backend, "kind": kind, "fam": fam, "n": n,
-                "reqlen": len(data), "observed": obs, "observed_len": olen, "alive": t.alive()}
+                "reqlen": len(data), "observed": obs, "observed_len": olen, "alive": t.alive(),
+                "overfull": bool(c.get("overfull"))}
     finally:
         if cl:
             cl.close()
@@ -66,8 +71,8 @@ def udp_case(ctx, c, idx):
 def http_case(ctx, c, idx):
     kind, fam, n = c["kind"], c["fam"], c["n"]
     port = free_port(socket.SOCK_STREAM)
-    cfg = http_config(port, 1, 1, True, max_scrape=max(n, 100) if kind == "scrape" else 100,
-                      max_peers=n if kind == "announce" else 50)
+    cfg = http_config(port, 1, 1, True, max_scrape=max(n, 100) if kind == "scrape" else 1000,
+                      max_peers=n if kind == "announce" else 1000)
     t = Tracker(ctx, "http", cfg, "c18_%d" % idx)
     ip = "127.0.0.2" if fam == 4 else "::1"
     srv = ("127.0.0.1", port) if fam == 4 else ("::1", port)
@@ -76,12 +81,12 @@ def http_case(ctx, c, idx):
         tcp_wait_ready(srv, tracker=t)
         conn = HttpConn(ip, srv)
         if kind == "announce":
-            for p in range(n):
+            for p in range(n + (40 if c.get("overfull") else 0)):
                 conn.send_split(request_bytes(announce_path(1, 1024 + p, numwant=1)), [])
                 out = conn.read_reply(timeout=3.0)
                 if out.get("outcome") != "reply":
                     raise ToolError("could not build the swarm over HTTP: %s" % out)
-            data = request_bytes(announce_path(1, 60000, numwant=n))
+            data = request_bytes(announce_path(1, 60000, numwant=1000000 if c.get("overfull") else n))
             reqlen = 300      # nominal (not at a boundary)
         else:
             path = "/scrape?" + "&".join("info_hash=" + ascii_hash(i).decode() for i in range(n))
@@ -94,7 +99,8 @@ def http_case(ctx, c, idx):
         else:
             obs, olen = ("closed" if out.get("outcome") == "closed" else "none"), 0
         return {"ev": "case", "tracker": "http", "backend": "glommio", "kind": kind, "fam": fam, "n": n,
-                "reqlen": reqlen, "observed": obs, "observed_len": olen, "alive": t.alive()}
+                "reqlen": reqlen, "observed": obs, "observed_len": olen, "alive": t.alive(),
+                "overfull": bool(c.get("overfull"))}
     finally:
         if conn:
             conn.close()
@@ -136,6 +142,27 @@ def run(ctx):
         th.join(300)
     if errors:
         raise ToolError("; ".join(errors)[:500])
+    # "overfull" probes: at the largest limit of each announce category whose worst-case reply was delivered,
+    # a swarm 40 peers LARGER than the limit, every other limit set high and a request asking for as much
+    # as it can must be answered as well (the reply is bounded by the limit under test and by nothing else)
+    main = dict(results)
+    safe = {}
+    for i, r in main.items():
+        if r["kind"] == "announce" and r["observed"] == "reply":
+            key = (r["tracker"], r["backend"], r["fam"])
+            if key not in safe or r["n"] > safe[key]["n"]:
+                safe[key] = todo[i]
+    extra = [dict(c, overfull=True) for c in safe.values()]
+    base = len(todo)
+    todo = todo + extra
+    ths = [threading.Thread(target=work, args=(base + j, c)) for j, c in enumerate(extra)]
+    for th in ths:
+        th.start()
+    for th in ths:
+        th.join(600)
+    if errors:
+        raise ToolError("; ".join(errors)[:500])
+    overfull = {i: results.pop(i) for i in list(results) if i >= base}
     tp = ctx.path("buffers.ndjson")
     with open(tp, "w") as f:
         for i in sorted(results):
@@ -157,7 +184,7 @@ def run(ctx):
         log("MODEL-DRIFT (no verdict): %d grid points differ from Buffers.tla, e.g. %s" % (len(drift), json.dumps(drift[0])[:200]))
     # the property: every in-scope worst-case request of an accepted configuration is delivered
     groups = {}
-    for r in results.values():
+    for r in list(results.values()) + list(overfull.values()):
         if r["observed"] != "reply":
             key = (r["tracker"], r["backend"], r["kind"], r["fam"])
             groups.setdefault(key, []).append(r)
@@ -170,6 +197,7 @@ def run(ctx):
                          {"cases": rs}, sig)
     ctx.coverage.update({
         "grid_points_from_spec": len(cases), "grid_points_executed": len(results),
+        "overfull_probes": [[r["tracker"], r["backend"], r["fam"], r["n"], r["observed"]] for r in overfull.values()],
         "delivered": sum(1 for r in results.values() if r["observed"] == "reply"),
         "not_delivered": sum(1 for r in results.values() if r["observed"] != "reply"),
         "spec_fits": fits[0] if fits else "?",
